@@ -513,6 +513,15 @@ theorem pin_seqDisabled : Generated.C01.sequenceLockTimeDisabled = (SEQ_LOCKTIME
 theorem pin_seqIsSeconds : Generated.C01.sequenceLockTimeIsSeconds = (SEQ_LOCKTIME_TYPE : Int) := by decide
 theorem pin_seqMask : Generated.C01.sequenceLockTimeMask = (SEQ_LOCKTIME_MASK : Int) := by decide
 theorem pin_seqGranularity : Generated.C01.sequenceLockTimeGranularity = (SEQ_LOCKTIME_GRANULARITY : Int) := by decide
+theorem pin_baseSubsidy : Generated.C01.baseSubsidy = BASE_SUBSIDY := by decide
+theorem pin_maxTimeWarp : Generated.C01.maxTimeWarpSecs = MAX_TIMEWARP := by decide
+theorem pin_bip30Limit : Generated.C01.bip34ReenableBIP30Height = BIP34_IMPLIES_BIP30_LIMIT := by decide
+/-- BIP34 applies to block versions ≥ 2 (the literal in rule `bip34Height`), the MTP window is C09's 11 -/
+theorem pin_heightVersion : Generated.C01.serializedHeightVersion = 2 := by decide
+theorem pin_medianTimeBlocks : Generated.C01.medianTimeBlocks = (BV.C09.Spec.MEDIAN_TIME_SPAN : Int) := by decide
+/-- the witness nonce is 32 bytes and the commitment script 38 (what the harness's own commitment check uses) -/
+theorem pin_witnessNonceLen : Generated.C01.coinbaseWitnessDataLen = 32 := by decide
+theorem pin_witnessCommitLen : Generated.C01.coinbaseWitnessPkScriptLength = 38 := by decide
 theorem pin_seqFinal : Generated.C01.maxTxInSequenceNum = (SEQUENCE_FINAL : Int) := by decide
 
 end BV.C01
